@@ -50,14 +50,32 @@ def SharesNothing(m, others):
     return all(id(d) not in mine for accs in others for a in accs for d in DatatypeObjects(a))
 
 
+def Without(d, names):
+    return {k: v for k, v in d.items() if k not in names}
+
+
+def Only(d, names):
+    return {k: v for k, v in d.items() if k in names}
+
+
 def DescriptionsKept(before, after):
     return before == after
 
 
 CONTRACTS = [
     # bounded stand-in only: creating a module instance of a generated class hierarchy
+    # bounded stand-in only: defining a class (each definition is one call of __init_subclass__) never changes what the classes
+    # defined before describe, and the new class describes what its own chain says
+    dict(key='HasAccessibles.__init_subclass__', vc=False, file='frappy/modulebase.py', func='HasAccessibles.__init_subclass__',
+         serves=['C09'], requires=[],
+         ensures={'earlier_classes_unchanged': 'Without(CLASS_DESCRIPTIONS(), mixin_users) == Without(descriptions_before, mixin_users)',
+                  # classes sharing a partial Parameter of a plain mixin: known finding C09-mixin-partial-parameter-shared
+                  'mixin_users_unchanged': 'Only(CLASS_DESCRIPTIONS(), mixin_users) == Only(descriptions_before, mixin_users)',
+                  'own_chain': 'all(NEW_CLASS().accessibles[a].datatype.export_datatype() == d for a, d in expected_datainfo.items())'},
+         raises='never'),
     dict(key='Module.__init__', vc=False, file='frappy/modulebase.py', func='Module.__init__', serves=['C09'], self_type='Module',
-         requires=[], ensures={'shares_nothing': 'SharesNothing(self, other_accessibles)',
+         requires=[], ensures={'own_properties': 'all(getattr(self, k) == v for k, v in expected_props.items())',
+                               'shares_nothing': 'SharesNothing(self, other_accessibles)',
                                'others_unchanged': 'DescriptionsKept(descriptions_before, DESCRIBE())'},
          raises='never'),
     dict(key='iface::DataType.copy', file=None, func=None, signature='self', serves=[], trusted=True, requires=[],
@@ -94,7 +112,8 @@ CONTRACTS = [
          modifies=['self.export', 'self.propertyValues'], ensures={'inv': 'inv(self)'}, raises={}),
     dict(key='Parameter.clone', file='frappy/params.py', func='Parameter.clone', serves=['C09'], self_type='Parameter',
          params={'properties': 'dict'},
-         requires=['inv(self)', "('datatype' in self.propertyValues) == (self.datatype is not None)"],
+         requires=['inv(self)', "('datatype' in self.propertyValues) == (self.datatype is not None)",
+                   "implies('datatype' in properties, properties['datatype'] is None or is_instance_of(properties['datatype'], DataType))"],
          modifies=[], check_frame=False,
          ensures={'fresh': 'is_fresh(result) and not same_object(result, self)',
                   'own_datatype': 'implies(self.datatype is not None, result.datatype is None or is_fresh(result.datatype))',
